@@ -250,6 +250,11 @@ def _(n, T):
               yaml={"default_arg_suffix": ["_a", "_a_b", "_a_b_c"]})]
 
 
+@shape("default_out", langs=("c++",), wraps=("c", "fortran", "python"), doc="cxxlibrary.yaml defaultArgsInOut (intent(out) argument before defaulted ones)")
+def _(n, T):
+    return [F(n, "int", [P("a", "val", "int"), P("st", "ptr_out", "int"), P("b", "val", "int", default="2"), P("c", "val", "int", default="9")])]
+
+
 @shape("template_arg", langs=("c++",), wraps=("c", "fortran", "python"), doc="tutorial.yaml TemplateArgument; docs/templates.rst")
 def _(n, T):
     return [F(n, "int", [P("arg", "val", "ArgType")], template=["int", "double"])]
